@@ -36,6 +36,7 @@ type World struct {
 	escaped  map[string]bool // heap-name prefixes (F:T.path) whose address escapes
 	ghostModSets map[*ssa.Function]map[string]bool
 	lemmaDone map[string]bool
+	Also     map[string][]string
 }
 
 func shortPkgPath(path string) string {
@@ -101,7 +102,7 @@ func LoadWorld(repoDir string) (*World, error) {
 	prog, spkgs := ssautil.AllPackages(pkgs, ssa.GlobalDebug|ssa.InstantiateGenerics)
 	prog.Build()
 	w := &World{RepoDir: repoDir, Prog: prog, Pkgs: pkgs, SPkgs: map[string]*ssa.Package{}, Funcs: map[string]*ssa.Function{},
-		AllFn: map[*ssa.Function]bool{}, Specs: NewSpecSet(), loops: map[*ssa.Function]*LoopInfo{}, harmlessExtern: map[string]bool{}, NoInline: map[string]bool{}, lemmaDone: map[string]bool{}}
+		AllFn: map[*ssa.Function]bool{}, Specs: NewSpecSet(), loops: map[*ssa.Function]*LoopInfo{}, harmlessExtern: map[string]bool{}, NoInline: map[string]bool{}, lemmaDone: map[string]bool{}, Also: map[string][]string{}}
 	if len(pkgs) > 0 {
 		w.Fset = pkgs[0].Fset
 	}
